@@ -22,6 +22,9 @@ Link/Frag.vos Link/Frag.vok Link/Frag.required_vos: Link/Frag.v Base/Bytes.vos B
 Link/Frame.vo Link/Frame.glob Link/Frame.v.beautified Link/Frame.required_vo: Link/Frame.v Base/Bytes.vo Base/Bits.vo Crc/CrcModel.vo Link/LLHeader.vo gen/GenConsts.vo
 Link/Frame.vio: Link/Frame.v Base/Bytes.vio Base/Bits.vio Crc/CrcModel.vio Link/LLHeader.vio gen/GenConsts.vio
 Link/Frame.vos Link/Frame.vok Link/Frame.required_vos: Link/Frame.v Base/Bytes.vos Base/Bits.vos Crc/CrcModel.vos Link/LLHeader.vos gen/GenConsts.vos
+Link/FrameProofs.vo Link/FrameProofs.glob Link/FrameProofs.v.beautified Link/FrameProofs.required_vo: Link/FrameProofs.v Base/Bytes.vo Base/Bits.vo Crc/CrcSpec.vo Crc/CrcModel.vo Crc/CrcProofs.vo Link/LLHeader.vo Link/LinkSpec.vo Link/LinkSpecProofs.vo Link/Frame.vo Link/Rx.vo Link/RxProofs.vo gen/GenConsts.vo
+Link/FrameProofs.vio: Link/FrameProofs.v Base/Bytes.vio Base/Bits.vio Crc/CrcSpec.vio Crc/CrcModel.vio Crc/CrcProofs.vio Link/LLHeader.vio Link/LinkSpec.vio Link/LinkSpecProofs.vio Link/Frame.vio Link/Rx.vio Link/RxProofs.vio gen/GenConsts.vio
+Link/FrameProofs.vos Link/FrameProofs.vok Link/FrameProofs.required_vos: Link/FrameProofs.v Base/Bytes.vos Base/Bits.vos Crc/CrcSpec.vos Crc/CrcModel.vos Crc/CrcProofs.vos Link/LLHeader.vos Link/LinkSpec.vos Link/LinkSpecProofs.vos Link/Frame.vos Link/Rx.vos Link/RxProofs.vos gen/GenConsts.vos
 Link/LLHeader.vo Link/LLHeader.glob Link/LLHeader.v.beautified Link/LLHeader.required_vo: Link/LLHeader.v Base/Bits.vo Base/Bytes.vo
 Link/LLHeader.vio: Link/LLHeader.v Base/Bits.vio Base/Bytes.vio
 Link/LLHeader.vos Link/LLHeader.vok Link/LLHeader.required_vos: Link/LLHeader.v Base/Bits.vos Base/Bytes.vos
@@ -31,12 +34,18 @@ Link/LLHeaderGen.vos Link/LLHeaderGen.vok Link/LLHeaderGen.required_vos: Link/LL
 Link/LinkSpec.vo Link/LinkSpec.glob Link/LinkSpec.v.beautified Link/LinkSpec.required_vo: Link/LinkSpec.v Base/Bytes.vo Crc/CrcSpec.vo
 Link/LinkSpec.vio: Link/LinkSpec.v Base/Bytes.vio Crc/CrcSpec.vio
 Link/LinkSpec.vos Link/LinkSpec.vok Link/LinkSpec.required_vos: Link/LinkSpec.v Base/Bytes.vos Crc/CrcSpec.vos
+Link/LinkSpecProofs.vo Link/LinkSpecProofs.glob Link/LinkSpecProofs.v.beautified Link/LinkSpecProofs.required_vo: Link/LinkSpecProofs.v Base/Bytes.vo Crc/CrcSpec.vo Crc/CrcModel.vo Crc/CrcProofs.vo Link/LinkSpec.vo
+Link/LinkSpecProofs.vio: Link/LinkSpecProofs.v Base/Bytes.vio Crc/CrcSpec.vio Crc/CrcModel.vio Crc/CrcProofs.vio Link/LinkSpec.vio
+Link/LinkSpecProofs.vos Link/LinkSpecProofs.vok Link/LinkSpecProofs.required_vos: Link/LinkSpecProofs.v Base/Bytes.vos Crc/CrcSpec.vos Crc/CrcModel.vos Crc/CrcProofs.vos Link/LinkSpec.vos
 Link/Resync.vo Link/Resync.glob Link/Resync.v.beautified Link/Resync.required_vo: Link/Resync.v 
 Link/Resync.vio: Link/Resync.v 
 Link/Resync.vos Link/Resync.vok Link/Resync.required_vos: Link/Resync.v 
 Link/Rx.vo Link/Rx.glob Link/Rx.v.beautified Link/Rx.required_vo: Link/Rx.v Base/Bytes.vo Crc/CrcModel.vo Link/LinkSpec.vo Link/Frame.vo Link/Resync.vo gen/GenConsts.vo
 Link/Rx.vio: Link/Rx.v Base/Bytes.vio Crc/CrcModel.vio Link/LinkSpec.vio Link/Frame.vio Link/Resync.vio gen/GenConsts.vio
 Link/Rx.vos Link/Rx.vok Link/Rx.required_vos: Link/Rx.v Base/Bytes.vos Crc/CrcModel.vos Link/LinkSpec.vos Link/Frame.vos Link/Resync.vos gen/GenConsts.vos
+Link/RxProofs.vo Link/RxProofs.glob Link/RxProofs.v.beautified Link/RxProofs.required_vo: Link/RxProofs.v Base/Bytes.vo Crc/CrcSpec.vo Crc/CrcModel.vo Crc/CrcProofs.vo Link/LinkSpec.vo Link/LinkSpecProofs.vo Link/Frame.vo Link/Resync.vo Link/Rx.vo Link/RxSpec.vo gen/GenConsts.vo
+Link/RxProofs.vio: Link/RxProofs.v Base/Bytes.vio Crc/CrcSpec.vio Crc/CrcModel.vio Crc/CrcProofs.vio Link/LinkSpec.vio Link/LinkSpecProofs.vio Link/Frame.vio Link/Resync.vio Link/Rx.vio Link/RxSpec.vio gen/GenConsts.vio
+Link/RxProofs.vos Link/RxProofs.vok Link/RxProofs.required_vos: Link/RxProofs.v Base/Bytes.vos Crc/CrcSpec.vos Crc/CrcModel.vos Crc/CrcProofs.vos Link/LinkSpec.vos Link/LinkSpecProofs.vos Link/Frame.vos Link/Resync.vos Link/Rx.vos Link/RxSpec.vos gen/GenConsts.vos
 Link/RxSpec.vo Link/RxSpec.glob Link/RxSpec.v.beautified Link/RxSpec.required_vo: Link/RxSpec.v Base/Bytes.vo Crc/CrcSpec.vo Link/LinkSpec.vo
 Link/RxSpec.vio: Link/RxSpec.v Base/Bytes.vio Crc/CrcSpec.vio Link/LinkSpec.vio
 Link/RxSpec.vos Link/RxSpec.vok Link/RxSpec.required_vos: Link/RxSpec.v Base/Bytes.vos Crc/CrcSpec.vos Link/LinkSpec.vos
@@ -49,21 +58,21 @@ gen/GenConsts.vos gen/GenConsts.vok gen/GenConsts.required_vos: gen/GenConsts.v
 gen/GenCrcTables.vo gen/GenCrcTables.glob gen/GenCrcTables.v.beautified gen/GenCrcTables.required_vo: gen/GenCrcTables.v 
 gen/GenCrcTables.vio: gen/GenCrcTables.v 
 gen/GenCrcTables.vos gen/GenCrcTables.vok gen/GenCrcTables.required_vos: gen/GenCrcTables.v 
-props/Props_C01.vo props/Props_C01.glob props/Props_C01.v.beautified props/Props_C01.required_vo: props/Props_C01.v Link/Rx.vo Link/RxSpec.vo
-props/Props_C01.vio: props/Props_C01.v Link/Rx.vio Link/RxSpec.vio
-props/Props_C01.vos props/Props_C01.vok props/Props_C01.required_vos: props/Props_C01.v Link/Rx.vos Link/RxSpec.vos
-props/Props_C02.vo props/Props_C02.glob props/Props_C02.v.beautified props/Props_C02.required_vo: props/Props_C02.v Link/Rx.vo Link/RxSpec.vo
-props/Props_C02.vio: props/Props_C02.v Link/Rx.vio Link/RxSpec.vio
-props/Props_C02.vos props/Props_C02.vok props/Props_C02.required_vos: props/Props_C02.v Link/Rx.vos Link/RxSpec.vos
+props/Props_C01.vo props/Props_C01.glob props/Props_C01.v.beautified props/Props_C01.required_vo: props/Props_C01.v Base/Bytes.vo Link/LinkSpec.vo Link/LinkSpecProofs.vo Link/Rx.vo Link/RxSpec.vo Link/RxProofs.vo
+props/Props_C01.vio: props/Props_C01.v Base/Bytes.vio Link/LinkSpec.vio Link/LinkSpecProofs.vio Link/Rx.vio Link/RxSpec.vio Link/RxProofs.vio
+props/Props_C01.vos props/Props_C01.vok props/Props_C01.required_vos: props/Props_C01.v Base/Bytes.vos Link/LinkSpec.vos Link/LinkSpecProofs.vos Link/Rx.vos Link/RxSpec.vos Link/RxProofs.vos
+props/Props_C02.vo props/Props_C02.glob props/Props_C02.v.beautified props/Props_C02.required_vo: props/Props_C02.v Base/Bytes.vo Link/LinkSpec.vo Link/LinkSpecProofs.vo Link/Rx.vo Link/RxSpec.vo Link/RxProofs.vo
+props/Props_C02.vio: props/Props_C02.v Base/Bytes.vio Link/LinkSpec.vio Link/LinkSpecProofs.vio Link/Rx.vio Link/RxSpec.vio Link/RxProofs.vio
+props/Props_C02.vos props/Props_C02.vok props/Props_C02.required_vos: props/Props_C02.v Base/Bytes.vos Link/LinkSpec.vos Link/LinkSpecProofs.vos Link/Rx.vos Link/RxSpec.vos Link/RxProofs.vos
 props/Props_C03.vo props/Props_C03.glob props/Props_C03.v.beautified props/Props_C03.required_vo: props/Props_C03.v Base/Bytes.vo Crc/CrcSpec.vo Crc/CrcModel.vo Crc/CrcProofs.vo
 props/Props_C03.vio: props/Props_C03.v Base/Bytes.vio Crc/CrcSpec.vio Crc/CrcModel.vio Crc/CrcProofs.vio
 props/Props_C03.vos props/Props_C03.vok props/Props_C03.required_vos: props/Props_C03.v Base/Bytes.vos Crc/CrcSpec.vos Crc/CrcModel.vos Crc/CrcProofs.vos
-props/Props_C05.vo props/Props_C05.glob props/Props_C05.v.beautified props/Props_C05.required_vo: props/Props_C05.v Base/Bytes.vo Base/Bits.vo Link/LLHeader.vo Link/LLHeaderGen.vo
-props/Props_C05.vio: props/Props_C05.v Base/Bytes.vio Base/Bits.vio Link/LLHeader.vio Link/LLHeaderGen.vio
-props/Props_C05.vos props/Props_C05.vok props/Props_C05.required_vos: props/Props_C05.v Base/Bytes.vos Base/Bits.vos Link/LLHeader.vos Link/LLHeaderGen.vos
-props/Props_C06.vo props/Props_C06.glob props/Props_C06.v.beautified props/Props_C06.required_vo: props/Props_C06.v Link/Rx.vo Link/RxSpec.vo
-props/Props_C06.vio: props/Props_C06.v Link/Rx.vio Link/RxSpec.vio
-props/Props_C06.vos props/Props_C06.vok props/Props_C06.required_vos: props/Props_C06.v Link/Rx.vos Link/RxSpec.vos
+props/Props_C05.vo props/Props_C05.glob props/Props_C05.v.beautified props/Props_C05.required_vo: props/Props_C05.v Base/Bytes.vo Base/Bits.vo Link/LLHeader.vo Link/LLHeaderGen.vo Link/LinkSpec.vo Link/LinkSpecProofs.vo Link/Frame.vo Link/Rx.vo Link/FrameProofs.vo gen/GenBitfields.vo
+props/Props_C05.vio: props/Props_C05.v Base/Bytes.vio Base/Bits.vio Link/LLHeader.vio Link/LLHeaderGen.vio Link/LinkSpec.vio Link/LinkSpecProofs.vio Link/Frame.vio Link/Rx.vio Link/FrameProofs.vio gen/GenBitfields.vio
+props/Props_C05.vos props/Props_C05.vok props/Props_C05.required_vos: props/Props_C05.v Base/Bytes.vos Base/Bits.vos Link/LLHeader.vos Link/LLHeaderGen.vos Link/LinkSpec.vos Link/LinkSpecProofs.vos Link/Frame.vos Link/Rx.vos Link/FrameProofs.vos gen/GenBitfields.vos
+props/Props_C06.vo props/Props_C06.glob props/Props_C06.v.beautified props/Props_C06.required_vo: props/Props_C06.v Base/Bytes.vo Link/LinkSpec.vo Link/LinkSpecProofs.vo Link/Frame.vo Link/Rx.vo Link/RxSpec.vo Link/RxProofs.vo Link/FrameProofs.vo
+props/Props_C06.vio: props/Props_C06.v Base/Bytes.vio Link/LinkSpec.vio Link/LinkSpecProofs.vio Link/Frame.vio Link/Rx.vio Link/RxSpec.vio Link/RxProofs.vio Link/FrameProofs.vio
+props/Props_C06.vos props/Props_C06.vok props/Props_C06.required_vos: props/Props_C06.v Base/Bytes.vos Link/LinkSpec.vos Link/LinkSpecProofs.vos Link/Frame.vos Link/Rx.vos Link/RxSpec.vos Link/RxProofs.vos Link/FrameProofs.vos
 props/Props_C09.vo props/Props_C09.glob props/Props_C09.v.beautified props/Props_C09.required_vo: props/Props_C09.v Base/Bytes.vo Link/Frame.vo Link/Frag.vo
 props/Props_C09.vio: props/Props_C09.v Base/Bytes.vio Link/Frame.vio Link/Frag.vio
 props/Props_C09.vos props/Props_C09.vok props/Props_C09.required_vos: props/Props_C09.v Base/Bytes.vos Link/Frame.vos Link/Frag.vos
